@@ -8,9 +8,10 @@ comparison is the `v.length < threshold` test inside `verifyAux`).
 import InToto.Proofs.PipeThresholds
 import InToto.Proofs.PipeSigs
 import InToto.Generated.Facts
+import InToto.Proofs.Pipeline
 
 namespace InToto.C02
-open InToto InToto.Schema InToto.Metadata InToto.Verify InToto.PipeProofs
+open InToto InToto.Schema InToto.Metadata InToto.Verify InToto.PipeProofs InToto.PipelineProofs InToto.Json InToto.Schema InToto.Metadata
 
 /-- signature verification of the model never panics, so the hypotheses below are met for every world -/
 theorem never_panics (W : World) : ∀ md k, (mdVerify W md k).isPanic = false :=
@@ -90,5 +91,51 @@ theorem garbage_ignored :
     loader model (`linkFileInfix`, `first8`) was written for -/
 theorem facts_link_formats : Generated.constLinkGlobFormat = lit% "%s.????????.link" ∧
     Generated.constLinkNameFormat = lit% "%s.%.8s.link" := by decide
+
+/-- C02 AT PIPELINE LEVEL ("verification succeeds only if …"): whenever one level of verification
+    accepts, EVERY step of the (parameter-substituted) layout has at least `threshold` counted links,
+    from pairwise distinct functionaries, each of them present in the link directory under the
+    step's name and authorized for that very step with a valid signature -/
+theorem acceptance_implies_thresholds_met (W : World) (ln : Bool) (ci : List Str) (fuel : Nat) (md : Md)
+    (keys : List (Str × Key)) (dir : Dir) (sn : Str) (params : List (Str × Str)) (rd : RunDirState) (acc : Acc)
+    (s : Summary) (h : (verifyAux W ln ci (fuel + 1) md keys dir sn params rd acc).out = .ok s) :
+    ∃ lay, Admitted W ci md keys params rd lay ∧
+      ∀ st ∈ layoutSteps lay, ∃ v : List (Str × Md),
+        (st.threshold ≤ (v.length : Int)) ∧ (v.map Prod.fst).Nodup ∧
+        ∀ x ∈ v, x ∈ loadLinksForStep st.name dir.files ∧
+          PipeProofs.Authorized W lay st ((layoutRootCAs lay).map Prod.fst) x.1 x.2 :=
+  accept_implies_thresholds W ln ci fuel md keys dir sn params rd acc s h
+
+/-- C02 ("conversely, `threshold` honest links … always satisfy the threshold, whatever … also lie in
+    the directory"): if for every step the counted links reach the threshold, the counting stage
+    succeeds — nothing else in the directory can make it fail -/
+theorem enough_counted_links_always_suffice (W : World) (lay : TVal) (dir : Dir)
+    (h : ∀ st ∈ layoutSteps lay, ∃ v,
+      verifiedLinks W lay st ((layoutRootCAs lay).map Prod.fst) (loadLinksForStep st.name dir.files) = .ok v ∧
+      (st.threshold ≤ (v.length : Int))) :
+    ∃ ver, countedStage W lay dir = .ok ver :=
+  countedStage_complete W lay dir h
+
+/-- C02: one step whose counted links fall short of its threshold fails the stage (and with it,
+    by `verifyAux_ok_iff`, the verification) -/
+theorem one_short_step_fails (W : World) (lay : TVal) (dir : Dir) (st : Step) (v : List (Str × Md))
+    (hst : st ∈ layoutSteps lay)
+    (hv : verifiedLinks W lay st ((layoutRootCAs lay).map Prod.fst) (loadLinksForStep st.name dir.files) = .ok v)
+    (hshort : (v.length : Int) < st.threshold) :
+    (countedStage W lay dir).isOk = false :=
+  countedStage_short W lay dir st v hst hv hshort
+
+/-- the pipeline as the conjunction of its stages: one level accepts with summary `s` EXACTLY when
+    the layout is admitted, the counting stage succeeds, every counted sublayout verifies, and the
+    last stage accepts -/
+theorem pipeline_is_conjunction_of_stages (W : World) (ln : Bool) (ci : List Str) (fuel : Nat) (md : Md)
+    (keys : List (Str × Key)) (dir : Dir) (sn : Str) (params : List (Str × Str)) (rd : RunDirState) (acc : Acc)
+    (s : Summary) :
+    (verifyAux W ln ci (fuel + 1) md keys dir sn params rd acc).out = .ok s ↔
+      ∃ lay ver res acc1, Admitted W ci md keys params rd lay ∧
+        countedStage W lay dir = .ok ver ∧
+        resolveSteps (recOf W ln ci fuel) lay dir ver acc = (.ok res, acc1) ∧
+        (finishStage W rd sn lay res acc1).out = .ok s :=
+  verifyAux_ok_iff W ln ci fuel md keys dir sn params rd acc s
 
 end InToto.C02
